@@ -168,9 +168,9 @@ namespace TypedLoad
 -- ---------------------------------------------------------------------------------------------------
 -- /Prev loop
 
-theorem prevLoop_ne_oof_aux (secs : Sections) :
+theorem prevLoop_ne_oof_aux (secs : Sections) (start : Nat) :
     ∀ (fuel : Nat) (p : Option Nat) (seen : List Nat) (n : Nat), seen.Nodup → (∀ c ∈ seen, c < secs.length) →
-      secs.length + 1 ≤ fuel + seen.length → prevLoop secs fuel p seen n ≠ .oof := by
+      secs.length + 1 ≤ fuel + seen.length → prevLoop secs start fuel p seen n ≠ .oof := by
   intro fuel
   induction fuel with
   | zero =>
@@ -188,19 +188,22 @@ theorem prevLoop_ne_oof_aux (secs : Sections) :
       · rename_i hp
         split
         · simp
+        split
+        · simp
         · simp
         · rename_i prev hs
-          have hlt : p < secs.length := getElem?_some_lt secs p _ hs
+          -- the number recorded is header-relative; the position read is `start + p`, inside the buffer
+          have hlt : start + p < secs.length := getElem?_some_lt secs (start + p) _ hs
           apply ih
           · exact List.nodup_cons.2 ⟨hp, hn⟩
           · intro c hc
             rcases List.mem_cons.1 hc with rfl | hc
-            · exact hlt
+            · omega
             · exact hb c hc
           · simp only [List.length_cons]; omega
 
-theorem prevLoop_ne_panic (secs : Sections) :
-    ∀ (fuel : Nat) (p : Option Nat) (seen : List Nat) (n : Nat), prevLoop secs fuel p seen n ≠ .panic := by
+theorem prevLoop_ne_panic (secs : Sections) (start : Nat) :
+    ∀ (fuel : Nat) (p : Option Nat) (seen : List Nat) (n : Nat), prevLoop secs start fuel p seen n ≠ .panic := by
   intro fuel
   induction fuel with
   | zero => intro p seen n; simp [prevLoop]
@@ -213,6 +216,8 @@ theorem prevLoop_ne_panic (secs : Sections) :
       split
       · simp
       · split
+        · simp
+        split
         · simp
         · simp
         · exact ih _ _ _
